@@ -264,6 +264,32 @@ def spec_env(eng, st):
     return Env(eng.entry_args, eng.entry_state, st, eng=eng)
 
 
+def _note_unlisted_writes(eng, ordn, s_head, s_end, locs):
+    """KNOWN GAP of the loop rule (reported, not yet an obligation): the state after a loop under a hand invariant is the entry state
+    with the loop's `modifies` havocked plus the invariant; a heap field the BODY writes but the loop's `modifies` does not list is not
+    carried past the loop head, and nothing obliges the body to stay within `modifies`.  Every such (contract, loop, field) seen while
+    executing the arbitrary iteration is listed in the evidence (as an assumption `unchecked-loop-frame:...`), so that a reader sees
+    exactly where a post-condition was proved about a state that ignores such a write."""
+    listed = {loc[1] for loc in locs if loc[0] == "heap"}
+    fields = []
+    for f, arr in s_end.heap.items():
+        if f in listed:
+            continue
+        a0 = s_head.heap.get(f)
+        if a0 is None:
+            a0 = eng.heap_init(f)
+        pairs = zip(arr, a0) if isinstance(arr, tuple) else [(arr, a0)]
+        if any(not x.eq(y) for x, y in pairs):
+            fields.append(f)
+    if fields:
+        from . import apply as _apply
+        key = f"unchecked-loop-frame:{getattr(eng.cur_contract, 'key', '?')}/loop#{ordn}"
+        old = _apply.ASSUMED_USED.get(key, "")
+        names = sorted(set(fields) | set(old.split(": ")[-1].split(", ") if old else []))
+        _apply.ASSUMED_USED[key] = ("the loop body writes heap field(s) not listed in the loop's `modifies` (not carried past the loop "
+                                    "head; known gap of the loop rule, see pyvc/loops.py): " + ", ".join(n for n in names if n))
+
+
 def invariant_for(eng, node, st, fid, seq, spec, ordn):
     res = []
     n = seq.n
@@ -301,6 +327,7 @@ def invariant_for(eng, node, st, fid, seq, spec, ordn):
                 if k2 in ("next", "continue"):
                     eng.oblige_split(s2, spec.inv(spec_env(eng, s2), LoopCtx(i + 1, n, s2, seq, fid, st)),
                                      f"loop#{ordn}/inv-preserve", kind="loop")
+                    _note_unlisted_writes(eng, ordn, sh, s2, locs)
                 elif k2 == "break":
                     res.append(("next", s2, None))
                 else:
